@@ -261,3 +261,77 @@ func (t *VerifTrie) Match(uriPath, httpMethod string) (index int, vars []string,
 	}
 	return index, vars, allowed
 }
+
+// VerifMethodOptions is the resolved configuration of one registered method.
+type VerifMethodOptions struct {
+	Found             bool
+	Protocols         []int
+	Codecs            []string
+	PreferredCodec    string
+	Compressors       []string
+	MaxMsgBufferBytes uint32
+	MaxGetURLBytes    uint32
+	// the first HTTP rule of the method, if any
+	HasHTTPRule bool
+	RuleMethod  string
+	RulePath    []string
+	RuleVerb    string
+}
+
+// VerifMethodConfig reports how the transcoder resolved the options of the
+// method with the given path ("/pkg.Service/Method").
+func VerifMethodConfig(t *Transcoder, methodPath string) VerifMethodOptions {
+	conf, ok := t.methods[methodPath]
+	if !ok {
+		return VerifMethodOptions{}
+	}
+	out := VerifMethodOptions{
+		Found:             true,
+		PreferredCodec:    conf.preferredCodec,
+		MaxMsgBufferBytes: conf.maxMsgBufferBytes,
+		MaxGetURLBytes:    conf.maxGetURLBytes,
+	}
+	for p := range conf.protocols {
+		out.Protocols = append(out.Protocols, int(p))
+	}
+	for c := range conf.codecNames {
+		out.Codecs = append(out.Codecs, c)
+	}
+	for c := range conf.compressorNames {
+		out.Compressors = append(out.Compressors, c)
+	}
+	if conf.httpRule != nil {
+		out.HasHTTPRule = true
+		out.RuleMethod, out.RulePath, out.RuleVerb = conf.httpRule.method, conf.httpRule.path, conf.httpRule.verb
+	}
+	return out
+}
+
+// VerifRouteMatch is the result of matching a request line against the
+// transcoder's REST routes.
+type VerifRouteMatch struct {
+	MethodPath   string // "" if no route matched
+	Body         string
+	ResponseBody string
+	VarPaths     []string
+	VarValues    []string
+	Allowed      []string
+}
+
+// VerifMatchRoute runs the transcoder's REST route table on a request line.
+func VerifMatchRoute(t *Transcoder, uriPath, httpMethod string) VerifRouteMatch {
+	target, varMatches, methods := t.restRoutes.match(uriPath, httpMethod)
+	var out VerifRouteMatch
+	if target != nil {
+		out.MethodPath = target.config.methodPath
+		out.Body, out.ResponseBody = target.requestBodyFieldPath, target.responseBodyFieldPath
+		for _, v := range varMatches {
+			out.VarPaths = append(out.VarPaths, resolveFieldDescriptorsToPath(v.fields, false))
+			out.VarValues = append(out.VarValues, v.value)
+		}
+	}
+	for method := range methods {
+		out.Allowed = append(out.Allowed, method)
+	}
+	return out
+}
